@@ -15,7 +15,6 @@ class QuaHoldList(HoldList[QuaHold], QuaNoteList[QuaHold]):
     @staticmethod
     def from_yaml(dicts: List[Dict[str]]) -> QuaHoldList:
         df = pd.DataFrame(dicts)
-        df["EndTime"] -= df["StartTime"]
         df = df.rename(
             dict(
                 StartTime="offset",
@@ -32,7 +31,7 @@ class QuaHoldList(HoldList[QuaHold], QuaNoteList[QuaHold]):
         )
         df.offset = df.offset.fillna(0)
         df.column = df.column.fillna(0)
-        df.length = df.length.fillna(0)
+        df.length = df.length.fillna(0) - df.offset
         df.keysounds = [k if isinstance(k, list) else [] for k in df.keysounds]
         return QuaHoldList(df)
 
